@@ -28,6 +28,12 @@ theorem C09_closure (es : List (V × V)) (fuel : Nat) (x : V) (r : List V)
     (h : multiStepTaint es fuel x = some r) : ∀ y, y ∈ r ↔ Reach es x y :=
   fun y => ⟨multiStepTaint_sound es fuel x r h y, multiStepTaint_complete es fuel x r h y⟩
 
+/-- the `while !update.is_subset(&result)` loop exits by itself: a budget of (number of edge targets + 2)
+    iterations is never exhausted -/
+theorem C09_closure_terminates (es : List (V × V)) (x : V) :
+    ∃ r, multiStepTaint es ((x :: es.map (·.2)).length + 1) x = some r :=
+  multiStepTaint_terminates es x
+
 /-- the sink set contains every input/output signal, every variable read by a condition, a
     dimension, an assertion or a return value, and every variable of a constraint that mentions an
     input/output signal -/
